@@ -221,13 +221,17 @@ def fmt_val(v: Dict[str, bool]) -> str:
     return ",".join(f"{k}={'T' if b else 'F'}" for k, b in v.items())
 
 
-def iteration_outcomes(cfg: CFG, loop_stmt, decide, label) -> Set[frozenset]:
+def iteration_outcomes(cfg: CFG, loop_stmt, decide, label, into_handlers: bool = False) -> Set[frozenset]:
     """Simulates the function and, for every path that runs the body of ``loop_stmt`` once, returns the set of
     labels (``label(node) -> Optional[str]``) met inside that one iteration, plus "<return>" / "<raise>" when
     the iteration leaves the function."""
     head = cfg.node_of(loop_stmt)
     out: Set[frozenset] = set()
-    for tr in cfg.simulate(decide):
+    follow = None
+    if into_handlers:
+        # statements protected by a handler may fail: the path into the handler is part of the iteration
+        follow = lambda n, env: any(lab == "exc" and cfg.nodes[m].kind == "handler" for m, lab in cfg.succ[n.id])  # noqa: E731
+    for tr in cfg.simulate(decide, follow_exc=follow):
         p = tr.path
         if head.id not in p:
             continue
